@@ -175,6 +175,27 @@ DeleteFrom(nodes, t, D, cap) ==
                       THEN (t :> Split(n.plane, L.ref, R.ref)) ELSE EmptyFn) @@ L.put @@ R.put,
              del |-> L.del \cup R.del]
 
+\* delete_items_from_trees: every root is walked into one scratch file, which is applied at the end;
+\* the roots are then sorted
+RECURSIVE DelAllRoots(_, _, _, _, _)
+DelAllRoots(nodes, roots, k, D, cap) ==
+  IF k > Len(roots) THEN [roots |-> <<>>, put |-> EmptyFn, del |-> {}]
+  ELSE LET d == DeleteFrom(nodes, roots[k], D, cap)
+           rest == DelAllRoots(nodes, roots, k + 1, D, cap)
+       IN [roots |-> <<d.ref[2]>> \o rest.roots, put |-> d.put @@ rest.put, del |-> d.del \cup rest.del]
+AfterDeleteItems(nodes, roots, D, cap) ==
+  LET r == DelAllRoots(nodes, roots, 1, D, cap)
+  IN [nodes |-> Apply(nodes, r.put, r.del), roots |-> SortedSeq(SeqToSet(r.roots))]
+
+\* delete_extra_trees: while there are more trees than wanted, remove the first root (swap_remove(0): the
+\* last root takes its place) together with every tree node below it
+RECURSIVE AfterDeleteExtra(_, _, _)
+AfterDeleteExtra(nodes, roots, target) ==
+  IF Len(roots) <= target THEN [nodes |-> nodes, roots |-> roots]
+  ELSE LET ts == NodesBelow(nodes, TreeRef(roots[1]))
+           rest == IF Len(roots) = 1 THEN <<>> ELSE <<roots[Len(roots)]>> \o SubSeq(roots, 2, Len(roots) - 1)
+       IN AfterDeleteExtra([n \in (DOMAIN nodes \ ts) |-> nodes[n]], rest, target)
+
 (***************************************************************************)
 (* Planes.  A plane is [zero, right, ms]: `zero` marks the degenerate      *)
 (* plane of the random fallback, `right` is (in the model) the set of      *)
